@@ -57,6 +57,9 @@ structure Codec where
   H : Bytes → Bytes
   dec : Bytes → Bytes × DFin
   enc : Bytes → Bytes
+  /-- on this input, ending inside a frame, the decoder reports an error of its reader as
+  `io.ErrUnexpectedEOF` instead of passing it on (depends on where the input ends) -/
+  masks : Bytes → Bool := fun _ => false
 
 structure Flags where
   /-- D5 repaired: `writeZstd` rejects a first request whose `write_offset` is not 0. -/
@@ -172,7 +175,7 @@ def zValidate (C : Codec) (F : Flags) (d : Digest) (acc : Bytes) (term : Option 
   if out.length > d.size then .error (eTooBig 3)
   else if fin = .corrupt then .error eDecoder
   else match term with
-    | some e => .error e
+    | some e => if fin = .trunc ∧ C.masks acc then .error F.truncErr else .error e
     | none =>
       if fin = .clean then
         (if out.length < d.size then .error (eSize 3) else check)
@@ -240,6 +243,14 @@ def sendAll (cks : List Bytes) (failAt : Nat) : ReadOut :=
   if failAt = 0 ∨ cks.length < failAt then { sent := cks }
   else { sent := cks.take (failAt - 1), res := some (eInjected 14) }
 
+/-- Compressed path (repaired): what reaches the client of `plain` when the `failAt`-th `Send`
+fails.  Only `0` (never) and `1` (the first) are meaningful: how the encoder cuts its output
+into `Send`s is not modelled (a frame is sent also for empty input).  `term` is how the buffer
+ended. -/
+def zsend (C : Codec) (plain : Bytes) (failAt : Nat) (term : Option Err) : ReadOut :=
+  if failAt = 0 then { zdata := some (C.enc plain), res := term }
+  else { res := match term with | some e => some e | none => some (eInjected 14) }
+
 /-- `byteStreamServer.Read`. -/
 def read (C : Codec) (F : Flags) (st : Store) (kind : NameKind) (d : Digest) (off : Int)
     (limit : Int) (cs : Nat) (failAt : Nat) (getFault : Option Nat) : ReadOut :=
@@ -260,7 +271,7 @@ def read (C : Codec) (F : Flags) (st : Store) (kind : NameKind) (d : Digest) (of
     | .ok c =>
       if F.strictR then
         (if !offsetOk c.length off then { res := some eOffset }
-         else { zdata := some (C.enc (c.drop off.toNat)) })
+         else zsend C (c.drop off.toNat) failAt none)
       else { zdata := some (C.enc c) }
 
 /-! ## ByteStream.Read in front of a streaming backend
@@ -342,6 +353,7 @@ def readS (C : Codec) (F : Flags) (src : Except Err Source) (kind : NameKind) (d
         let v := vstart C d 13 s
         let cks := normalize cs (skipBytes (if F.strictR then off.toNat else 0) v.1)
         if cks = [] ∧ v.2 ≠ none then { res := v.2 }
+        else if F.strictR then zsend C cks.flatten failAt v.2
         else { zdata := some (C.enc cks.flatten), res := v.2 }
 
 /-- the medium of the recording backend: the stored bytes in pieces of `piece` bytes, cut
